@@ -151,7 +151,18 @@ func WorkerMain(t *testing.T, harnesses map[string]Harness) {
 			}
 		}
 		t0 := time.Now()
+		soft := time.Duration(p.Int("run_wall_s", 30)) * time.Second
+		softT := time.AfterFunc(soft, s.Expire)
+		hardT := time.AfterFunc(4*soft+30*time.Second, func() {
+			fmt.Fprintf(os.Stdout, "\nVSIM X %d hard wall-clock limit exceeded\n", seed)
+			os.Exit(4)
+		})
 		info := h(s, p)
+		softT.Stop()
+		hardT.Stop()
+		if s.Expired() {
+			info.Inconclusive = true
+		}
 		r := Result{
 			Seed: seed, Outcome: "ok", Steps: s.Steps, NChoices: len(s.Choices), LogHash: s.LogHash(),
 			WallUs: time.Since(t0).Microseconds(), Faults: s.Faults, Probes: s.Probes, Info: info,
